@@ -31,9 +31,9 @@ func GenANSI(t *rapid.T) string {
 		// two-byte sequences: keypad modes, full reset
 		return rapid.SampledFrom([]string{"\x1b=", "\x1b>", "\x1bc"}).Draw(t, "ansi2")
 	case 2:
-		// operating system command, BEL terminated (window title and the like)
+		// operating system command (window title and the like): free text up to BEL or ST
 		return "\x1b]" + rapid.SampledFrom([]string{"0", "1", "2"}).Draw(t, "oscN") + ";" +
-			rapid.StringMatching(`[a-zA-Z0-9]{0,8}`).Draw(t, "oscText") + "\x07"
+			rapid.StringMatching(`[a-zA-Z0-9@:~ ./\-]{0,12}`).Draw(t, "oscText") + rapid.SampledFrom([]string{"\x07", "\x07", "\x1b\\"}).Draw(t, "oscEnd")
 	}
 
 	var sb strings.Builder
@@ -62,7 +62,7 @@ func GenANSI(t *rapid.T) string {
 }
 
 // MaxANSILen is the longest sequence GenANSI produces.
-const MaxANSILen = 2 + 1 + 3*4 + 2 + 1
+const MaxANSILen = 2 + 1 + 3*4 + 2 + 1 + 2
 
 // WithANSI inserts 0..k escape sequences at rune boundaries of s.
 func WithANSI(t *rapid.T, s string, k int) Line {
